@@ -1,6 +1,7 @@
 import EgVerif.Proofs.IPFilter
 import EgVerif.Proofs.Mux
 import EgVerif.Gen.FactsC05
+import EgVerif.Proofs.IPFilterIR
 /-!
 # C05 — IP filter: denied clients never reach a pipeline, allowed ones are unaffected
 
@@ -242,5 +243,18 @@ example : Spec.denied oF cF qF = true ∧ search oF cF qF = .code 403 ∧
 /-- a POST is served by the first rule: the second rule's filter does not apply -/
 example : Spec.denied oF cF { qF with method := "POST" } = false ∧
     search oF cF { qF with method := "POST" } = .path 0 0 { path := "/x", methods := ["POST"], backend := "b0" } := by decide
+
+/-! ### Regenerated tie by translation (`notes/IR.md`) -/
+
+/-- `Gen.FactsC05IR.allowIR` is re-translated on every run from the current body of `IPFilter.Allow`
+(go/ast → Lean, `harness/factextract/irlib.go`); it is the hand-written `allow` on every input. -/
+theorem allow_regenerated_from_source (f : Filter) (ip : Option Addr) :
+    Gen.FactsC05IR.extractionFailed = false ∧ Gen.FactsC05IR.allowIR f ip = IPFilter.allow f ip :=
+  ⟨by decide, allowIR_eq_model f ip⟩
+
+/-- the same for the loop of `IPFilters.Allow` (generated structural recursion) and `allowAll`. -/
+theorem allowAll_regenerated_from_source (fs : List Filter) (ip : Option Addr) :
+    Gen.FactsC05IR.extractionFailed = false ∧ Gen.FactsC05IR.allowAllIR fs ip = IPFilter.allowAll fs ip :=
+  ⟨by decide, allowAllIR_eq_model fs ip⟩
 
 end EgVerif.C05
